@@ -35,6 +35,7 @@ type c18Scenario struct {
 	Args     []string
 	Targets  []string          // files that may be rewritten
 	Links    map[string]string // symbolic links created in the scratch directory: name -> target
+	Loops    []string          // arguments that are symbolic links to themselves
 	MustFail bool              // the command fails before writing: no target may change, in the fault-free run either
 	Broken   string            // several files: the one that does not parse (all others must be rewritten whatever the number of CPUs)
 	New      map[string]string // expected new contents (target -> bytes); absent = must stay old
@@ -65,10 +66,16 @@ func c18Dir(e *core.Env) string {
 
 var c18Links map[string]string
 
+// c18Loops: names created as symbolic links to themselves (stat fails with ELOOP)
+var c18Loops []string
+
 func c18Reset(dir string, files map[string]string) {
 	defer func() {
 		for n, t := range c18Links {
 			os.Symlink(t, filepath.Join(dir, n))
+		}
+		for _, n := range c18Loops {
+			os.Symlink(n, filepath.Join(dir, n))
 		}
 	}()
 	ents, _ := os.ReadDir(dir)
@@ -441,6 +448,11 @@ func c18Scenarios(e *core.Env) []c18Scenario {
 			Args: []string{"format", "a.knut", "b.knut", "c.knut"}, Targets: []string{"a.knut", "b.knut", "c.knut"}},
 		{Name: "format-six-files-first-broken", Files: map[string]string{"a.knut": broken, "b.knut": c18Unformatted(300), "c.knut": c18Unformatted(400), "d.knut": c18Unformatted(500), "e.knut": c18Unformatted(600), "f.knut": c18Unformatted(700)},
 			Args: []string{"format", "a.knut", "b.knut", "c.knut", "d.knut", "e.knut", "f.knut"}, Targets: []string{"a.knut", "b.knut", "c.knut", "d.knut", "e.knut", "f.knut"}, Broken: "a.knut"},
+		// arguments that cannot even be stat'ed (links to themselves, a path below a regular
+		// file), listed before five good files: every good file must still be rewritten
+		{Name: "format-unreadable-paths-first", Files: map[string]string{"b.knut": c18Unformatted(300), "c.knut": c18Unformatted(400), "d.knut": c18Unformatted(500), "e.knut": c18Unformatted(600), "f.knut": c18Unformatted(700)},
+			Loops: []string{"loop1.knut", "loop2.knut", "loop3.knut"},
+			Args:  []string{"format", "loop1.knut", "loop2.knut", "b.knut/below.knut", "loop3.knut", "b.knut", "c.knut", "d.knut", "e.knut", "f.knut"}, Targets: []string{"b.knut", "c.knut", "d.knut", "e.knut", "f.knut"}, Broken: "-"},
 		{Name: "format-through-symlink", Files: map[string]string{"real.knut": c18Unformatted(900)}, Links: map[string]string{"link.knut": "real.knut"},
 			Args: []string{"format", "link.knut"}, Targets: []string{"real.knut"}},
 		{Name: "infer-inplace-through-symlink", Files: map[string]string{"train.knut": train, "real.knut": target + c18Unformatted(3000)}, Links: map[string]string{"link.knut": "real.knut"},
@@ -469,7 +481,7 @@ func c18Run(e *core.Env) {
 	errnos := []string{"ENOSPC", "EIO", "EACCES"}
 	for _, sc := range c18Scenarios(e) {
 		sc := sc
-		c18Links = sc.Links
+		c18Links, c18Loops = sc.Links, sc.Loops
 		if err := c18Expected(dir, &sc); err != nil {
 			e.EngineError("%s: %v", sc.Name, err)
 			continue
@@ -683,7 +695,7 @@ func c18Replay(e *core.Env, data json.RawMessage) (bool, string) {
 			continue
 		}
 		sc := sc
-		c18Links = sc.Links
+		c18Links, c18Loops = sc.Links, sc.Loops
 		c18Expected(dir, &sc)
 		if cs.Fault == "power-loss" {
 			ops, _, _ := c18Record(dir, &sc)
